@@ -1,4 +1,4 @@
-import Lemmas.Lookup
+import Lemmas.PermEquiv
 import Props.C11
 import Props.C08
 /-!
@@ -10,57 +10,17 @@ not depend on that order (keys are distinct, as in a Go map).
 -/
 namespace GoModel
 
-theorem lookup_none_iff {α} (l : List (Str × α)) (k : Str) : lookup k l = none ↔ k ∉ l.map (·.1) := by
-  induction l with
-  | nil => simp [lookup]
-  | cons x r ih =>
-    obtain ⟨k', v'⟩ := x
-    by_cases hk : (k' == k) = true
-    · have : k' = k := by simpa using hk
-      simp [lookup, hk, this]
-    · have hne : ¬ k' = k := by simpa using hk
-      simp only [lookup, hk, Bool.false_eq_true, ↓reduceIte, ih, List.map_cons, List.mem_cons, not_or]
-      constructor
-      · intro h; exact ⟨fun e => hne e.symm, h⟩
-      · intro h; exact h.2
-
 /-- a map read does not depend on the iteration order -/
-theorem lookup_perm {α} (l l' : List (Str × α)) (k : Str) (hp : l.Perm l') (hnd : (l.map (·.1)).Nodup) :
-    lookup k l = lookup k l' := by
-  have hnd' : (l'.map (·.1)).Nodup := (hp.map _).nodup_iff.mp hnd
-  cases h : lookup k l with
-  | none =>
-    have : k ∉ l'.map (·.1) := by
-      rw [← (hp.map (·.1)).mem_iff]; exact (lookup_none_iff l k).mp h
-    exact ((lookup_none_iff l' k).mpr this).symm
-  | some v =>
-    have hm := lookup_mem l k v h
-    exact (lookup_of_mem_nodup l' k v hnd' (hp.mem_iff.mp hm)).symm
+theorem map_read_order_independent {α} (l l' : List (Str × α)) (k : Str) (hp : l.Perm l')
+    (hnd : (l.map (·.1)).Nodup) : lookup k l = lookup k l' := lookup_perm l l' k hp hnd
 
-/-- the candidates of an abbreviation are the same set whatever the iteration order … -/
-theorem resolve_perm (nd nd' : Node) (k : Str) (hp : nd.opts.Perm nd'.opts) (hnd : (nd.opts.map (·.1)).Nodup) :
-    (resolve nd k).Perm (resolve nd' k) := by
-  unfold resolve
-  rw [← lookup_perm nd.opts nd'.opts k hp hnd]
-  cases lookup k nd.opts with
-  | some _ => exact List.Perm.refl _
-  | none => exact (hp.filter _).map _
-
-/-- … so "unknown", "unique" and "ambiguous" are decided identically, a unique match is the same
-key, and the sorted candidate list of the ambiguity error is the same text. -/
-theorem resolve_perm_outcome (nd nd' : Node) (k : Str) (hp : nd.opts.Perm nd'.opts) (hnd : (nd.opts.map (·.1)).Nodup) :
+/-- "unknown", "unique" and "ambiguous" are decided identically whatever the iteration order, a
+unique match is the same key, and the sorted candidate list of the ambiguity error is the same text -/
+theorem resolve_order_independent (nd nd' : Node) (k : Str) (hp : nd.opts.Perm nd'.opts)
+    (hnd : (nd.opts.map (·.1)).Nodup) :
     ((resolve nd k = []) ↔ (resolve nd' k = [])) ∧
     (∀ key, resolve nd k = [key] ↔ resolve nd' k = [key]) ∧
-    sortStrs (resolve nd k) = sortStrs (resolve nd' k) := by
-  have h := resolve_perm nd nd' k hp hnd
-  refine ⟨?_, ?_, sortStrs_perm_eq _ _ h⟩
-  · constructor
-    · intro e; rw [e] at h; exact h.symm.eq_nil
-    · intro e; rw [e] at h; exact h.eq_nil
-  · intro key
-    constructor
-    · intro e; rw [e] at h; exact h.symm.eq_singleton
-    · intro e; rw [e] at h; exact h.eq_singleton
+    sortStrs (resolve nd k) = sortStrs (resolve nd' k) := resolve_perm_outcome nd nd' k hp hnd
 
 /-- the missing-required-option diagnostic is chosen by a fixed rule (first in sorted key order),
 whatever the iteration order of the table -/
@@ -94,5 +54,79 @@ theorem command_lookup_perm (nd nd' : Node) (t : Str) (hp : nd.cmds.Perm nd'.cmd
 theorem unknownPolicy_deterministic (unk : List (Str × UMode)) :
     unknownPolicy unk [] = ((firstFail unk).map UErr.unknown, warnedBefore unk) := by
   rw [unknownPolicy_spec]; simp
+
+/-! ## The whole of `Parse` is independent of the iteration order -/
+
+variable (ext : Ext)
+
+/-- **`Parse` over tables iterated in another order gives the same result**: `N'` is the node list
+of `P` with the option table and the command table of every node permuted (keys distinct, as in a Go
+map).  Then `Parse` returns the same error, the same remaining list and the same warnings, and leaves
+the same option store — for every argument list.  Together with the sorted diagnostics this is the
+determinism of `Parse` under Go's randomised map iteration. -/
+theorem parseUser_perm (P : Prog) (N' : List Node) (args : List Str) (h : NPerm P N') :
+    (parseUser ext { P with nodes := N' } args).err = (parseUser ext P args).err ∧
+    (parseUser ext { P with nodes := N' } args).remaining = (parseUser ext P args).remaining ∧
+    (parseUser ext { P with nodes := N' } args).warnings = (parseUser ext P args).warnings ∧
+    (parseUser ext { P with nodes := N' } args).st = (parseUser ext P args).st.wn N' := by
+  have hmode : (({ P with nodes := N' } : Prog).node 0).mode = (P.node 0).mode :=
+    (congrArg Node.mode (h 0).rest).symm
+  have hs := parseArgs_wn ext (P.node 0).mode P N' args h
+  have hn := parseArgs_nperm ext (P.node 0).mode P N' args h
+  unfold parseUser
+  simp only
+  rw [hmode, hs]
+  generalize parseArgs ext (P.node 0).mode P args = s at hn ⊢
+  have he : (s.wn N').err = s.err := rfl
+  have hu : (s.wn N').unk = s.unk := rfl
+  have hr : (s.wn N').rem = s.rem := rfl
+  have hreq : requiredAtParse (s.wn N') = requiredAtParse s := by
+    unfold requiredAtParse helpRequested
+    have hc : (s.wn N').cur = s.cur := rfl
+    have hnode : (s.wn N').P.node s.cur = N'.getD s.cur dummyNode := rfl
+    rw [hc, hnode]
+    have hpar : (N'.getD s.cur dummyNode).parent = (s.P.node s.cur).parent :=
+      (congrArg Node.parent (hn s.cur).rest).symm
+    have hhn : (N'.getD s.cur dummyNode).helpName = (s.P.node s.cur).helpName :=
+      (congrArg Node.helpName (hn s.cur).rest).symm
+    have hcr : calledAtRoot (s.wn N').P (s.P.node s.cur).helpName = calledAtRoot s.P (s.P.node s.cur).helpName :=
+      (calledAtRoot_perm s.P (s.wn N').P _ rfl (hn 0).opts (hn 0).ndO).symm
+    have hck : checkRequired (s.wn N').P s.cur = checkRequired s.P s.cur :=
+      (checkRequired_perm s.P (s.wn N').P s.cur rfl (hn s.cur).opts (hn s.cur).ndO).symm
+    simp only [hpar, hhn, hcr, hck]
+  rw [he, hreq, hu, hr]
+  cases s.err with
+  | some e => exact ⟨rfl, rfl, rfl, rfl⟩
+  | none =>
+    simp only
+    cases requiredAtParse s with
+    | some e => exact ⟨rfl, rfl, rfl, rfl⟩
+    | none =>
+      simp only
+      cases hpol : unknownPolicy s.unk [] with
+      | mk e w => cases e <;> exact ⟨rfl, rfl, rfl, rfl⟩
+
+/-- the hypothesis is met by reversing both tables of the root of the demo program -/
+example : NPerm Demo.prog
+    (Demo.prog.nodes.map fun n => { n with opts := n.opts.reverse, cmds := n.cmds.reverse }) := by
+  intro i
+  have key : ∀ n : Node, (n.opts.map (·.1)).Nodup → (n.cmds.map (·.1)).Nodup →
+      NodePerm n { n with opts := n.opts.reverse, cmds := n.cmds.reverse } :=
+    fun n h1 h2 => ⟨(List.reverse_perm _).symm, (List.reverse_perm _).symm, h1, h2, rfl⟩
+  by_cases hi : i < Demo.prog.nodes.length
+  · have hlen : Demo.prog.nodes.length = 4 := by decide
+    rw [hlen] at hi
+    match i, hi with
+    | 0, _ => exact key _ (by decide) (by decide)
+    | 1, _ => exact key _ (by decide) (by decide)
+    | 2, _ => exact key _ (by decide) (by decide)
+    | 3, _ => exact key _ (by decide) (by decide)
+  · have h1 : Demo.prog.node i = dummyNode := by
+      simp [Prog.node, List.getD, List.getElem?_eq_none (Nat.le_of_not_lt hi)]
+    have h2 : (Demo.prog.nodes.map fun n => { n with opts := n.opts.reverse, cmds := n.cmds.reverse }).getD i dummyNode
+        = dummyNode := by
+      simp [List.getD, List.getElem?_eq_none (Nat.le_of_not_lt hi)]
+    rw [h1, h2]
+    exact ⟨List.Perm.refl _, List.Perm.refl _, by decide, by decide, rfl⟩
 
 end GoModel
